@@ -1685,3 +1685,19 @@ Proof.
     destruct (pc_no_delims _ Pc) as [P63 P35]. destruct (pc_no_delims _ Sc) as [S63 S35].
     apply cut_ref_generated; auto; rewrite !in_app_iff; tauto.
 Qed.
+
+(* ------------------------------------------------------------ one request object, changing environment *)
+Lemma Facts_ok_request_state : url_helpers_keep_no_request_state = true.
+Proof. reflexivity. Qed.
+
+(* whatever the request was used for before, under whatever environments: only the current one counts *)
+Theorem request_history_irrelevant hist e : quoted_script_name_h hist e = quoted_script_name e.
+Proof. unfold quoted_script_name_h. rewrite Facts_ok_request_state. reflexivity. Qed.
+
+(* a request that freezes its first answer is refuted: mounted at '' first, then at '/app' *)
+Theorem request_memo_refuted :
+  exists hist e, quoted_script_name_frozen hist e <> quoted_script_name e.
+Proof.
+  exists [mkEnv [104] None [104] [56; 48] []], (mkEnv [104] None [104] [56; 48] [47; 97; 112; 112]).
+  vm_compute. discriminate.
+Qed.
